@@ -100,6 +100,8 @@ def gen_command(rng, dflt, keys, merge_files):
     if rng.random() < 0.15:
         # cron, ssh, a container: the same home under another locale
         cmd["locale"] = rng.choice(LOCALES)
+    if rng.random() < 0.06:
+        cmd["python_O"] = True  # python -O / PYTHONOPTIMIZE=1
     return cmd
 
 
